@@ -129,7 +129,37 @@ func boostsCommand(r *Rng, lits, words []string, views []boostsView) database.Co
 		}
 		return xs
 	}
-	switch x := r.Intn(100); {
+	x := r.Intn(100)
+	// aim the scenario at a query it can matter for, if there is one
+	prefer := func(ok func(w boostsView) bool) {
+		var cands []boostsView
+		for _, w := range views {
+			if ok(w) {
+				cands = append(cands, w)
+			}
+		}
+		if len(cands) > 0 {
+			v = Pick(r, cands)
+		}
+	}
+	switch {
+	case x < 30:
+		prefer(func(w boostsView) bool { return w.pq.Intent != nlp.IntentGeneral })
+	case x >= 52 && x < 60:
+		prefer(func(w boostsView) bool {
+			for _, a := range w.pq.Actions {
+				if a == "compress" || a == "archive" {
+					return true
+				}
+			}
+			return false
+		})
+	case x >= 60 && x < 68:
+		prefer(func(w boostsView) bool { return w.pq.Intent == nlp.IntentCreate })
+	case x >= 68 && x < 86:
+		prefer(func(w boostsView) bool { return len(w.ctxs) > 0 || len(w.aT) > len(w.pq.Actions) })
+	}
+	switch {
 	case x < 14: // command = a hint exactly / its first field is a hint / a hint preceded by something
 		h := Pick(r, orFiller(v.enhanced))
 		switch r.Intn(6) {
@@ -174,7 +204,7 @@ func boostsCommand(r *Rng, lits, words []string, views []boostsView) database.Co
 		c.Description = boostsPhrase(r, 0, 5, []string{"compress", "archive", "files", "folder", "extract"}, words)
 	case x < 68: // makepkg penalty
 		c.Command = Pick(r, []string{"makepkg", "makepkg -si", "MAKEPKG -s", "make", "cmake ..", "makepkg --clean", "xmakepkg"})
-		c.Description = Pick(r, []string{"build a package", "Build A PACKAGE", "create directory", "make things", "", "packag e", "compile pkg"})
+		c.Description = Pick(r, []string{"build a package", "Build A PACKAGE", "make package", "create a new package from PKGBUILD", "create directory", "make things", "", "packag e", "compile pkg"})
 	case x < 78: // synonyms of the query's terms / contexts (expanded terms that are not query terms)
 		c.Command = boostsPhrase(r, 1, 2, boostsHintCmds, orFiller(v.ctxs), boostsFiller)
 		c.Description = boostsPhrase(r, 1, 5, orFiller(v.aT), orFiller(v.tT), orFiller(v.kT), orFiller(v.ctxs))
@@ -226,6 +256,9 @@ func boostsQuery(r *Rng, idx, i int, lits, words []string) string {
 		ws[r.Intn(len(ws))] = lits[idx%len(lits)]
 	case 2: // compression actions with something else
 		ws = append(ws, Pick(r, []string{"compress", "archive", "zip", "pack", "backup"}))
+	case 3: // a word that decides the intent (actions first, then keywords)
+		ws = append([]string{Pick(r, []string{"find", "show", "create", "make", "delete", "modify", "change", "install", "run", "configure", "setup",
+			"permissions", "config", "installation", "running", "contents"})}, ws...)
 	}
 	if r.Chance(1, 10) {
 		ws = append(ws, Pick(r, []string{"without opening", "without editing"}))
@@ -246,7 +279,7 @@ func boostsGen(r *Rng, tier string, idx int, args map[string]string) []string {
 	if len(words) == 0 {
 		words = nlpBuiltin
 	}
-	nq := r.Range(3, 5)
+	nq := r.Range(4, 6)
 	views := make([]boostsView, nq)
 	scratch := &database.Database{}
 	for i := range views {
@@ -304,7 +337,7 @@ func boostsTagIntent(mon *Mon, c *database.Command, pq *nlp.ProcessedQuery, v fl
 	if p[0] != 1 {
 		mon.Tag("ib.intent-" + string(pq.Intent) + "-hit")
 		if p[0] < 1 {
-			mon.Tag("ib.makepkg-penalty")
+			mon.Tag("ib.intent-factor-below-1") // today: the makepkg penalty
 		}
 	} else if pq.Intent != nlp.IntentGeneral {
 		mon.Tag("ib.intent-" + string(pq.Intent) + "-miss")
